@@ -118,6 +118,12 @@ def r4_unordered_samples(ctx):
                                     a, c = sample_origin(body, e[2]), sample_origin(body, e[3])
                                     if a and c and a[0] == so_lo[0] and c[0] == so_lo[0]:
                                         sanitised = True
+                                # ... or a `match a.cmp(&b)` on the two values
+                                for x in subexprs(e):
+                                    if x[0] == "call" and x[3]["f"].get("name") in ("cmp", "partial_cmp", "total_cmp") and len(x[2]) == 2:
+                                        a, c = sample_origin(body, x[2][0]), sample_origin(body, x[2][1])
+                                        if a and c and a[0] == so_lo[0] and c[0] == so_lo[0]:
+                                            sanitised = True
                     ctx.check(sanitised, "C13.R4", fn.key, "range-from-sample",
                               "two elements of one choose_multiple() sample (unordered) are used as start..end of a range without ordering them: "
                               "start > end panics in slice indexing for about half of the draws", loc=fn.loc(st[3]))
